@@ -545,7 +545,8 @@ class StmtMixin:
         s.assume(k >= 0, k < seqv.n)
         for inv in spec.invariant(ctx):
             s.assume(inv)
-        item = Sym(z3.Select(seqv.arr, k), seqv.k)
+        from .values import sel
+        item = sel(seqv.arr, seqv.k, k)
         out = []
         for s2, r in self.assign(n.target, item, s, fr):
             if isinstance(r, Raised):
